@@ -122,6 +122,9 @@ var c11Positions = []struct{ Name, Tpl string }{
 	{"path-ab", `<p>{{ X.a.b }}</p>`},
 	{"index0", `<p>{{ X[0] }}</p>`},
 	{"index1a", `<p>{{ X[1].a }}</p>`},
+	{"index-neg", `<p>{{ X[-1] }} {{ X[-3] }} {{ X[-9] }} {{ X.-2 }}</p><i :title="X[-4]" v-if="X[-1]">y</i><b v-for="it in X[-2]">{{ it }}</b>`},
+	{"index-huge", `<p>{{ X[99999999999999999999] }} {{ X[9223372036854775807] }} {{ X[-9223372036854775808] }} {{ X[1e3] }} {{ X[0x10] }} {{ X[+1] }} {{ X[ 1 ] }}</p>`},
+	{"index-var", `<template :i="-5"><p>{{ X[i] }}</p></template><template :j="7"><p>{{ X[j] }} {{ X[j][j] }}</p></template>`},
 	{"field", `<p>{{ X.Name }}</p>`},
 	{"unexported", `<p>{{ X.priv }}</p>`},
 	{"embedded-field", `<p>{{ X.Label }} {{ X.Next.Next.Name }}</p>`},
@@ -214,6 +217,8 @@ func (c *c11Case) Run(ctx *core.Ctx) {
 				next = "@import \"f0.less\";\n"
 			case c.Pos == "self":
 				next = fmt.Sprintf("@import \"f%d.less\";\n", i)
+			case c.Pos == "selftwice": // two imports of itself in every file: refused imports must not be retried 2^depth times
+				next = fmt.Sprintf("@import \"f%d.less\";\n@import \"f%d.less\";\n", i, i)
 			case c.Pos == "missing":
 				next = "@import \"nowhere.less\";\n"
 			}
@@ -225,7 +230,7 @@ func (c *c11Case) Run(ctx *core.Ctx) {
 		ctx.Eval(2)
 		err1 := vuego.NewFS(files.FS(), vuego.WithLessProcessor()).Load("page.vuego").Render(bg, &buf)
 		err2 := vuego.NewFS(files.FS(), vuego.WithLessProcessor()).Load("page.vuego").Render(bg, &buf)
-		if (c.Pos == "cycle" || c.Pos == "self") && (err1 == nil || err2 == nil) {
+		if (c.Pos == "cycle" || c.Pos == "self" || c.Pos == "selftwice") && (err1 == nil || err2 == nil) {
 			ctx.Violation("no-error", "less/"+c.Pos, "import-cycle", fmt.Sprintf("an @import cycle over %d files rendered without error", n))
 		}
 		ctx.Outcome(fmt.Sprint(err1 != nil, err2 != nil))
@@ -541,7 +546,7 @@ func init() {
 					emit(&c11Case{Part: "types", Pos: p.Name, Val: w.Name})
 				}
 			}
-			for _, shape := range []string{"chain", "cycle", "self", "missing", "diamond"} {
+			for _, shape := range []string{"chain", "cycle", "self", "missing", "diamond", "selftwice"} {
 				for _, n := range []int{1, 2, 3, 5, 20, 99, 100, 101, 150} {
 					if shape == "diamond" && n > 20 {
 						continue // (the LESS library re-reads shared imports: 2^n work)
